@@ -13,14 +13,18 @@ EXTENDS Integers, Sequences, FiniteSets, TLC, Json
 Kinds == {"GET", "POST", "HEAD", "CONNECT", "GETviaProxy", "CONNECTviaProxy", "MITMGET", "MITMGETviaRej", "MITMHEADviaRej"}
 Faults == {"dial_refused", "dial_timeout", "tls_garbage", "tls_untrusted", "tls_expired", "tls_wrongname",
            "proxy_connect_403", "proxy_connect_407", "proxy_connect_502", "proxy_connect_403_body",
+           \* the upstream proxy accepts the connection and then says nothing: never answers the CONNECT / never
+           \* completes its TLS handshake (https proxy) - the connect time-out applies
+           "proxy_stall", "proxy_tls_stall",
            "cut_head", "cut_body_cl", "cut_body_chunked", "rst_head", "rst_body",
-           "bad_status_line", "bad_field", "bad_chunk_size", "bad_gzip", "trailing_garbage", "none"}
+           "bad_status_line", "bad_field", "bad_field_ctl", "bad_chunk_size", "bad_gzip", "trailing_garbage", "none"}
 \* which faults can occur for which kind of request
 Applies(f, k) ==
   CASE k \in {"MITMGETviaRej", "MITMHEADviaRej"} -> f \in {"proxy_connect_403", "proxy_connect_407", "proxy_connect_502", "proxy_connect_403_body"}
+    [] f \in {"proxy_stall", "proxy_tls_stall"} -> k = "CONNECTviaProxy"
     [] f \in {"tls_garbage", "tls_untrusted", "tls_expired", "tls_wrongname"} -> k = "MITMGET"
     [] f \in {"proxy_connect_403", "proxy_connect_407", "proxy_connect_502", "proxy_connect_403_body"} -> k \in {"CONNECTviaProxy", "MITMGETviaRej", "MITMHEADviaRej"}
-    [] f \in {"cut_head", "rst_head", "bad_status_line", "bad_field", "trailing_garbage", "none"} -> k # "CONNECT"
+    [] f \in {"cut_head", "rst_head", "bad_status_line", "bad_field", "bad_field_ctl", "trailing_garbage", "none"} -> k # "CONNECT"
     [] f \in {"cut_body_cl", "cut_body_chunked", "rst_body", "bad_chunk_size", "bad_gzip"} -> k \notin {"CONNECT", "CONNECTviaProxy", "HEAD"}
     [] OTHER -> TRUE
 \* what the client must get: an error response of the given status set, a connection closed after the
@@ -28,6 +32,9 @@ Applies(f, k) ==
 Statuses(f) ==
   CASE f = "dial_refused" -> {502}
     [] f = "dial_timeout" -> {504}
+    \* (the TCP connection to the upstream proxy was established; the statement's "otherwise 5xx" applies - what matters
+    \*  is that the connect time-out ends the wait)
+    [] f \in {"proxy_stall", "proxy_tls_stall"} -> 500..599
     [] f \in {"tls_garbage", "tls_untrusted", "tls_expired", "tls_wrongname"} -> {502}
     [] f \in {"proxy_connect_403", "proxy_connect_403_body"} -> {403}
     [] f = "proxy_connect_407" -> {407}
@@ -51,7 +58,7 @@ LogModes == {"errors", "headers", "body"}
 BodyPhase(f) == f \in {"cut_body_cl", "cut_body_chunked", "rst_body", "bad_chunk_size", "bad_gzip", "trailing_garbage", "none"}
 Cases == {c \in [f : Faults, k : Kinds, log : LogModes] :
             /\ Applies(c.f, c.k)
-            /\ ~(c.k = "CONNECTviaProxy" /\ c.f \in {"cut_head", "rst_head", "bad_status_line", "bad_field", "trailing_garbage"})
+            /\ ~(c.k = "CONNECTviaProxy" /\ c.f \in {"cut_head", "rst_head", "bad_status_line", "bad_field", "bad_field_ctl", "trailing_garbage"})
             /\ (c.log # "errors" => BodyPhase(c.f) /\ c.k \in {"GET", "POST", "GETviaProxy", "MITMGET"})}
 
 VARIABLE dummy
